@@ -1,6 +1,6 @@
 """The registered checks.  One function per property; each: rebuild, model check, generate, drive, validate (TLC), triage, evidence."""
 import json, os, random, sys, time, collections
-import vlib, formats, scen, gen_core, gen_env
+import vlib, formats, scen, gen_core, gen_env, gen_c03
 from vlib import Infra, log
 
 RATE = 8000
@@ -40,6 +40,15 @@ def _distinct(lines):
     return len(seen)
 
 
+def _scn_cfgs(lines):
+    out = {}
+    for ln in lines:
+        if ln.startswith("scn "):
+            t = ln.split()
+            out[int(t[1])] = dict(kv.split("=", 1) for kv in t[2:] if "=" in kv)
+    return out
+
+
 def core_check(prop, tier, mcs, lines, design_ref, what, t0, extra_cov=None, timeout=20, module="TraceCore.tla", cfg="TraceCore.cfg", passes=1):
     """shared tail: drive + validate + confirm + evidence.  mcs: list of model_check results"""
     exe = vlib.build()
@@ -54,7 +63,18 @@ def core_check(prop, tier, mcs, lines, design_ref, what, t0, extra_cov=None, tim
     uniq = {}
     for b in merged["bad"]:
         uniq.setdefault((b["script"], b["s"]), b)
-    confirmed = vlib.confirm_bad(prop, tier, exe, list(uniq.values()), module=module, cfg=cfg, timeout=timeout, passes=passes) if uniq else []
+    # confirm at most 12 rejected scenarios per (format, reason) class: the rest of a class is the same signature
+    cfgs = _scn_cfgs(lines)
+    perclass, todo, skipped = collections.Counter(), [], 0
+    for b in uniq.values():
+        key = (cfgs.get(b["s"], {}).get("fmt"), b["why"])
+        perclass[key] += 1
+        if perclass[key] <= 12:
+            todo.append(b)
+        else:
+            skipped += 1
+    confirmed = vlib.confirm_bad(prop, tier, exe, todo, module=module, cfg=cfg, timeout=timeout, passes=passes) if todo else []
+    extra_cov = dict(extra_cov or {}, rejected_not_reconfirmed_same_class=skipped)
     cov = {"states": states + merged["tlc_states"], "transitions": trans + merged["lines"],
            "model_states": states, "model_transitions": trans,
            "traces_validated_against_impl": merged["scenarios"], "evaluations": merged["events"],
@@ -498,7 +518,26 @@ def gen_chunks_mc(tier):
     return vlib.model_check("MC_chunks.tla", cfgname, workers=4, timeout=600)
 
 
-REGISTRY = {"C01": c01, "C07": c07, "C15": c15, "C10": c10, "C13": c13, "C11": c11, "C19": c19, "C14": c14, "C16": c16, "C04": c04, "C05": c05, "C06": c06, "C08": c08, "C09": c09}
+def c03(tier):
+    t0 = time.time()
+    exe = vlib.build()
+    rng = random.Random(vlib.SEED)
+    od = os.path.join(vlib.ROOT, "out", "C03", tier)
+    os.makedirs(od, exist_ok=True)
+    fmts = [(f, c) for f, c in formats.writable(exe, chans=(1, 2), rate=RATE) if scen.major(f) != scen.SD2]
+    if tier == "quick":
+        fmts = [x for x in fmts if x[1] == 1] + [x for x in fmts if x[1] == 2][::5]
+    seeds = gen_c03.seed_files(exe, fmts, RATE, od)
+    S = scen.Script()
+    per = 110 if tier == "quick" else 2500
+    gen_c03.scenarios(S, seeds, rng, per, routes=("vio", "vio", "fd", "pipe") if tier == "thorough" else ("vio", "vio", "vio", "fd", "pipe"), ncalls=10 if tier == "quick" else 16)
+    mcs = [gen_core.mc_rw("R", 2, tag=tier[0])]
+    return core_check("C03", tier, mcs, S.lines, "DESIGN.md section 6 C03",
+                      "valid files of every writable format (with strings and a custom chunk) mutated: hostile values substituted into 1/2/4/8 byte header fields in both byte orders, truncation at header offsets, bit flips, duplicated/deleted/moved header slices, random bytes behind the magic, pure garbage; %d seeds x %d mutants, routes vio/fd/pipe; after a successful open a random sequence of reads (4 types, items/frames/raw), seeks (every whence), string/info/peak/CALC queries, chunk iteration, close; TraceCore hostile class: NULL+error+message or sane SF_INFO, counts/positions/guard bands, every call returns (watchdog), ASan, ledger" % (len(seeds), per),
+                      t0, timeout=10, extra_cov={"seeds": len(seeds), "mutants_per_seed": per, "level_hint": "sampling of the input space, see DESIGN.md section 8"})
+
+
+REGISTRY = {"C01": c01, "C07": c07, "C15": c15, "C10": c10, "C13": c13, "C03": c03, "C11": c11, "C19": c19, "C14": c14, "C16": c16, "C04": c04, "C05": c05, "C06": c06, "C08": c08, "C09": c09}
 
 
 def replay(prop, path):
